@@ -26,6 +26,7 @@ fn setup(ctx: &mut Ctx) {
     ctx.floor("empty-table", 10);
     ctx.floor("get:index-near-usize-max", 100);
     ctx.floor("shuffled-access", 100);
+    ctx.floor("iterator-protocol:iterators", 500);
     ctx.floor("via:tables-checked", 1000);
     ctx.floor("via:stream-repeat-or-reorder", 500);
 }
@@ -152,6 +153,9 @@ fn check_table<P: ParseAt + Fields, E: EndianParse>(ctx: &mut Ctx, e: E, enc: En
     }
     let into: Vec<P> = ParsingTable::<E, P>::new(e, class, bytes).into_iter().take(n + 4).collect();
     check_items(ctx, "into_iter", enc, bytes, &into, n, entsize);
+    if n <= 40 && !super::util::iter_protocol(ctx, P::NAME, || ParsingTable::<E, P>::new(e, class, bytes).iter(), |x| format!("{:?}", x.fields()), n + 4, true) {
+        return;
+    }
     // repeated / re-ordered accesses return the same values
     if n >= 2 {
         ctx.count("shuffled-access");
@@ -197,6 +201,9 @@ fn check_plain_iter<P: ParseAt + Fields, E: EndianParse>(ctx: &mut Ctx, e: E, en
         }
     }
     check_items(ctx, "iterator", enc, bytes, &items, n, entsize);
+    if n <= 40 && !super::util::iter_protocol(ctx, P::NAME, || ParsingIterator::<E, P>::new(e, class, bytes), |x| format!("{:?}", x.fields()), n + 4, true) {
+        return;
+    }
     for k in 0..3 {
         if it.next().is_some() {
             ctx.set_input(bytes);
